@@ -153,9 +153,11 @@ def _r162(ctx: Ctx) -> None:
            f'`{coll}` is built without a sort: thresholds (bootstrap random stream) depend on file/row order',
            key='calculate_thresholds|sorted-sets')
     fn = aci.methods['aggregate']
-    gb = [n for n in ast.walk(fn) if isinstance(n, ast.Call) and isinstance(n.func, ast.Attribute) and n.func.attr == 'groupby']
+    from .c15 import groupby_calls
+    gb = [c_ for _, c_ in groupby_calls(ami, fn)]
+    ctx.need(gb, 'R16.2', site_of(ami, fn), 'aggregate: no groupby call found (in aggregate or a helper it calls)')
     nosort = any(k.arg == 'sort' and isinstance(k.value, ast.Constant) and k.value.value is False for g in gb for k in g.keywords)
-    ctx.ob('R16.2', site_of(ami, fn), 'aggregated rows come from a sorted group-by', bool(gb) and not nosort,
+    ctx.ob('R16.2', site_of(ami, fn), 'aggregated rows come from a sorted group-by', not nosort,
            'groupby(sort=False) keeps file order', key='aggregate|sorted-groupby')
     _, fn = m.func('panqec.analysis', 'get_p_th_nearest')
     # the table whose rows are argsort-ed must have been sorted by index before
@@ -513,6 +515,9 @@ def run(ctx: Ctx) -> None:
     from .c06 import class_mutable_rule
     with ctx.part():
         class_mutable_rule(ctx, 'R16.2', ['Analysis'])
+    with ctx.part():
+        from .c06 import global_state_rule
+        global_state_rule(ctx, 'R16.2', list(ctx.model.cls('Analysis').methods.values()), 'thresholds are estimated')
     with ctx.part():
         _r162(ctx)
     with ctx.part():
